@@ -12,14 +12,14 @@ LEVEL = {
     "C03": "Deductive proof (Verus) of the real get_assertion body: the signature is spec_sign(selected credential's key, authenticator data || client data hash), RP hash input and no attested data, returned id and user handle are the selected credential's, consent without eligible credential gives NoCredentials. Plus (unit clt) the dataflow of the real Client::authenticate body (client data, allow list as given, id / rawId / user handle, NoCredentials -> CredentialNotFound). Partial: ECDSA itself and the JSON / base64url leaves are assumed dependencies.",
     "C04": "Deductive proof (Verus) of check_user (complete truth table over options, capability, report, errors), make_credential and get_assertion: no success without the required consent, UP/UV bits exactly as reported, consent errors are returned whatever the store contains and leave it untouched, the credential shown for consent is the one that signs; the client maps userVerification != discouraged to uv in both ceremonies (unit clt).",
     "C05": "Deductive proof (Verus) for the authenticator against the documented store lookup contract: the selected credential is the first the store lists for (allow list or none when absent/empty, RP), bound to the RP and named in a non-empty allow list; exclusion fails the registration with the store unchanged. The client passes allow / exclude lists unchanged (unit clt). The shipped stores Option<Passkey> and MemoryStore are checked against the same contract written on the trait declaration (unit sto): three clauses fail on the unchanged tree and are recorded as known findings D7a-c (RP ID ignored by both stores; id-less lookup of the in-memory store finds nothing).",
-    "C06": "Deductive proof (Verus), narrow: the attested credential key is the public COSE encoding and the stored key the private COSE encoding of the same fresh secret (key routing). Non-interference over all serialisations is not a contract and is not covered.",
+    "C06": "Deductive proof (Verus), two parts: key routing (the attested credential key is the public COSE encoding and the stored key the private COSE encoding of the same fresh secret), and the hand-written Debug for Passkey (every value handed to the formatter is free of the passkey's secrets, by a per-type secret_free predicate). Non-interference over all serialisations of every returned value is not a contract and is not covered.",
     "C07": "Deductive proof (Verus) that every error path of make_credential / get_assertion leaves the store view unchanged (or changed only by the selected credential's counter), store errors are propagated, success implies the store accepted the write; each store call may fail with any status. Cancellation is covered only by a structural check of the text.",
     "C08": "Deductive proof (Verus): registration reports Some(0)/None as configured, an assertion reports exactly stored+1 below 2^32-1, never a smaller value at 2^32-1, no arithmetic overflow, and a credential without counter is not rewritten.",
     "C09": "Deductive proof (Verus) of the real calculate_hmac_secret, make_hmac_secret, make_prf, get_prf, make_extensions, get_extensions and of both ceremonies: every PRF output is HMAC-SHA-256 (uninterpreted) keyed with the verification-gated secret iff the user was verified (performed UV at assertion, requested-and-checked UV at registration), enabled iff secrets were stored, nothing stored or output without the capability; client-side: pre-hashed inputs must be 32 bytes, per-credential inputs rejected at registration. Per-credential inputs take precedence over the default ones (select_salts proved over a HashMap find model); the salt is SHA-256 of 'WebAuthn PRF' || 0x00 || input (make_salt proved over the byte-chain model, and a bounded Kani harness on the real source file); registration-side client mapping (make_ctap_extension, prf before prfAlreadyHashed) proved; a malformed PRF request returns before the authenticator is reached (unit clt). Partial: the client's get_ctap_extension (authentication-side validation of per-credential keys) is not covered.",
-    "C10": "Deductive proof (Verus), for every string and every well-formed sorted table: no lookup panics, public_suffix computes the publicsuffix.org rule walk over the table's trie (normal / wildcard / exception rules, fallback *), the binary search finds a label iff a sibling has it, results are label-aligned suffixes, eTLD+1 has exactly one more label, empty labels are rejected; well-formedness and sortedness of the shipped table are established by a verified checker compiled and run on the real constants. Partial: that the table encodes exactly the rules of public_suffix_list.dat is not covered.",
+    "C10": "Deductive proof (Verus), for every string and every well-formed sorted table: no lookup panics, public_suffix computes the publicsuffix.org rule walk over the table's trie (normal / wildcard / exception rules, fallback *), the binary search finds a label iff a sibling has it, results are label-aligned suffixes, eTLD+1 has exactly one more label, empty labels are rejected; well-formedness and sortedness of the shipped table are established by a verified checker compiled and run on the real constants. Partial: that the table encodes exactly the rules of public_suffix_list.dat is not covered. The agreement of the shipped table with the rule list of the shipped public_suffix_list.dat is decided by a verified checker (check_rules / count_rule_ends, proved for every table and list, compiled and run on this tree) and cross-checked by a bounded enumeration over the list's rules.",
     "C11": "Deductive proof (Verus): is_passkey_discoverable equals the capability table, get_info reports rk truthfully, make_credential stores the user handle exactly when discoverable and refuses rk on a non-discoverable-only store, get_assertion returns a user handle exactly when the credential stores one.",
     "C12": "Verus proof of the real constructor / setters (AT / ED set exactly with their section, 65535 limit), of the real encoder (to_vec / into_iter produce exactly the layout of the property, AT or-ed in when the section is present), of the real decoder (37-byte guard, reserved bits, header bytes, big-endian counter, section presence iff flag, truncated / missing section rejected, well-formed input accepted) and of their composition (decoding the encoding returns the same hash, flags, counter, aaguid, credential id, key and extensions); complete Kani harness (all u8) for flag validity. All relative to trusted models of the iterator chain (rule R23), Cursor / Read and a deterministic ciborium / coset with two round-trip axioms; what CBOR those libraries emit is not covered.",
-    "C13": "Status-byte clauses only: complete loop-free Kani harnesses over all 256 bytes, and Verus proof of the client's status mapping. CBOR clauses are not decidable.",
+    "C13": "Deductive proof (Verus) of the six CTAP2 messages on rustc's expansion of serde_workaround! (produced from the working tree on every run): Serialize side -- the map announced has as many entries as are written, the keys are the integers the CTAP specification assigns, ascending, an absent optional member is omitted; Deserialize side -- an integer key names the member with that number, other numbers in 0..255 and text that is no member name are skipped, a result is Ok only without duplicates and with every required member, absent optional members take their defaults (Options: up true, rk / uv false, proved on the real Default impl), and a sound input of that shape is accepted; the round trip of each message as a lemma over the two contracts. All relative to a trusted model of serde's data model; the encodings of member values and the CBOR byte level are assumed. Status bytes: complete loop-free Kani harnesses over all 256 bytes and a Verus proof of the client's status mapping.",
     "C15": "Deductive proof (Verus) of panic-freedom (index / slice / overflow / unwrap / unreachable) of the hand-written decoders of untrusted input: CTAPHID receiver for any packet length and sequence, U2F raw request decoder, public-suffix lookup, the authenticator-data decoder's own slicing and allocation (over reader models), sequence-visitor pre-allocation and termination (an accepted list element must have consumed input), the COSE public-key converter. Other decoders (CBOR, JSON, coset's own decoding, nom fingerprint parser) are outside both verifiers' reach and are listed as not covered.",
     "C16": "Deductive proof (Verus): header layouts, size check, the receiver's step relation for every 64-byte packet, and the reassembly and interleaving theorems for all payloads 0..7609 and all schedules (lemmas over handle_packet's own postcondition). The sender (to_packets, send) is proved to write exactly the packet list those theorems are stated over, for every accepted payload, relative to trusted models of the iterator adapters / for loop (rules R23-R26) and of the byte sink; bounded Kani harnesses check the same on the compiled crate for 9 lengths.",
     "C17": "Deductive proof (Verus) that every well-formed extended-length register / authenticate / version frame parses to that request, field by field. The three response encoders are proved to produce exactly the layouts of the property (unit enc, over rule R23's byte-chain model of into_iter / chain / collect); bounded Kani harnesses check the same layouts on the compiled crate. The real U2fApi::register / authenticate bodies are proved to sign exactly the byte strings of the property with the fresh / stored key and to store / look up the credential for (application, key handle) (unit cer). Partial: that an ECDSA signature verifies is p256 (assumed; checked concretely by the c17 replay sweep only when a clause fails).",
@@ -45,7 +45,7 @@ def main():
                       "kind_free_text": "extractor + contract splicer + Verus runner + obligation mapper (contract-based "
                                         "deductive verification of the real code); Kani harness families for complete "
                                         "loop-free harnesses, bounded stand-ins and counterexample production; replay crate"}],
-         "checks": [], "notes": "exit 2 = undecided (lost anchor, verifier front-end rejection, vacuity), never an alarm. "
+         "checks": [], "notes": "exit 2 = undecided (lost anchor, verifier front-end rejection, vacuity, or a proof obligation that is no longer discharged while no failing input could be reproduced on the real code), never an alarm. A VIOLATION is printed for a failed obligation together with a reproduced failing input, for a failed Kani harness, for the compiled verified table checker saying false and for the bounded enumerations. "
                                "KNOWN_FINDINGS.txt lists recorded and repaired defects.",
          "not_applicable": []}
     for p in ids:
